@@ -32,7 +32,7 @@ CLAIMS = {
         "technique": "MIR census + dataflow (statics/unsafe/ambient-API census, hash-iteration neutralisation check)",
     },
     "C11": {
-        "text": "Structural decision that scale multiplies every length exactly once and nothing else: per fragment type, each length-typed field of the value returned by `scale` is `self.field x scale` (expression reconstructed from MIR, closures followed), other fields do not mention scale; Fragment/FragmentSpan dispatch covers all variants; every Fragment->Node conversion receives a value scaled on every call path (call-graph dominators); canvas size carries settings.scale once; Settings.scale is read nowhere else; default scale 8 and cell 1x2 constants.",
+        "text": "Structural decision that scale multiplies every length exactly once and nothing else: per fragment type, each length-typed field of the value returned by `scale` is `self.field x scale` (expression reconstructed from MIR, closures followed), other fields do not mention scale; Fragment/FragmentSpan dispatch covers all variants; every Fragment->Node conversion receives a value scaled on every call path (call-graph dominators); canvas size carries settings.scale once; Settings.scale is read nowhere else; default scale 8 and cell 1x2 constants. K7: code that runs on scaled values (Bounds::bounds, Node conversions) takes cell-unit constants only as factors of a scaled field and adds no absolute length.",
         "design_ref": "DESIGN.md section 4 C11",
         "note": "Decides the shape of the arithmetic, not f32 rounding; the Node conversions are assumed to emit the fields they are given (attribute mapping is checked for Rect under C05).",
         "technique": "MIR expression reconstruction + pattern rules, call-graph dominators, field read census",
@@ -62,7 +62,7 @@ CLAIMS = {
         "technique": "MIR expression patterns + dominators/control dependence + grammar witness interpretation",
     },
     "C17": {
-        "text": "Structural decision of line-ending / trailing-blank insensitivity: rows come from str::lines on the whole input; a cell is inserted only under !is_whitespace of the inserted character; the cell buffer cannot carry a row count; the legend parser input is CR-filtered (closure predicate read from MIR) or else the grammar accepts CRLF witnesses identically, and 192 witness legends with blanks before line ends parse to the canonical entries on the extracted grammar.",
+        "text": "Structural decision of line-ending / trailing-blank insensitivity: rows come from str::lines on the whole input; a cell is inserted only under !is_whitespace of the inserted character; the cell buffer cannot carry a row count; the legend parser input is CR-filtered (closure predicate read from MIR) or else the grammar accepts CRLF witnesses identically, and 192 witness legends with blanks before line ends parse to the canonical entries on the extracted grammar. W3 models the text preparation before the grammar from its source (string-pipeline evaluator, fail closed) and includes multi-line block witnesses (blanks/CR before line ends inside a block).",
         "design_ref": "DESIGN.md section 4 C17",
         "note": "Witness documents are a finite sample for the grammar clause (necessary condition); the drawing clause is by construction (str::lines + whitespace guard). Genuine defect repaired by fix: commit cc9a377.",
         "technique": "MIR control dependence + grammar interpretation of witness documents + ADT field census",
@@ -80,25 +80,25 @@ CLAIMS = {
         "technique": "table abstract evaluation + MIR expression/control-dependence rules + syntax-tree rule for the `||`",
     },
     "C12": {
-        "text": "Structural decision of the canvas clause: size formula scale x (max + 2) x cell dimension with the (0,0) fallback, bounds() = min/max over occupied cells; every position-carrying CellBuffer field that is rendered is read by bounds() (known finding: escaped_text); every table fragment (ascii behaviour entries and unicode glyphs, exact arc geometry) stays in its cell or reaches at most one cell left/up only under a condition that implies a character there (residual-formula satisfiability) and at most one cell right/down; catalogue circles stay within drawing plus margin.",
+        "text": "Structural decision of the canvas clause: size formula scale x (max + 2) x cell dimension with the (0,0) fallback, bounds() = min/max over occupied cells; every position-carrying CellBuffer field that is rendered is read by bounds() (known finding: escaped_text); every table fragment (ascii behaviour entries and unicode glyphs, exact arc geometry) stays in its cell or reaches at most one cell left/up only under a condition that implies a character there (residual-formula satisfiability) and at most one cell right/down; catalogue circles stay within drawing plus margin. M1 also: the extremes range over all cells of the map (no selecting helper or adaptor).",
         "design_ref": "DESIGN.md section 4 C12",
         "note": "Text width is font dependent and not bounded. Known finding C12/unbounded-position-field/CellBuffer.escaped_text (pinned test forbids a repair).",
         "technique": "MIR expression patterns + field read census over the call graph + table abstract evaluation with partial evaluation of conditions",
     },
     "C13": {
-        "text": "Table clause for the circle catalogue: formulas of CircleArt (width, radius, centre, diameter, edge increment) pinned to the code; for each of the >= 22 drawings the edge case agrees with the left-most glyphs, radius = (n-1)/2 or n/2, horizontal extent equals the drawing's, every glyph's cell is within half a cell diagonal of the circle, centre near the vertical middle, diameter keys pairwise distinct; lookup uses the localised span and CIRCLES_SPAN stores unfilled circles built from centre()/radius().",
+        "text": "Table clause for the circle catalogue: formulas of CircleArt (width, radius, centre, diameter, edge increment) pinned to the code; for each of the >= 22 drawings the edge case agrees with the left-most glyphs, radius = (n-1)/2 or n/2, horizontal extent equals the drawing's, every glyph's cell is within half a cell diagonal of the circle, centre near the vertical middle, diameter keys pairwise distinct; lookup uses the localised span and CIRCLES_SPAN stores unfilled circles built from centre()/radius(). T2 also: inside the per-entry closure of the four catalogue lookups only the outcome of is_subset_of decides.",
         "design_ref": "DESIGN.md section 4 C13",
         "note": "Does not decide the run-time subset matching (that a placed drawing yields exactly one circle and nothing else).",
         "technique": "catalogue evaluation from syntax-tree literals + MIR/syntax conformance of the formulas",
     },
     "C14": {
-        "text": "Table clause decided by table abstract evaluation with exact rationals: every arrow-tagged polygon (ASCII entries in all eight directions and Unicode triangles) is filled, tagged away from the tested neighbour, has its tip on the axis of the neighbour's segment beyond the stub and its base straddling the axis; bullet circle literals map through merge_circle's thresholds (read from source, folded) to filled/open/big-open markers, each constructed marker variant has matching Display string, CSS rules, url(#id) and emitted <marker id> with the right fill class, marker-line class templates use the same prefixes and the marked end is the circle centre; every corner arc (33 today) has attached end points and its SVG centre on the inner side (axis-aligned corner for axis-parallel neighbours).",
+        "text": "Table clause decided by table abstract evaluation with exact rationals: every arrow-tagged polygon (ASCII entries in all eight directions and Unicode triangles) is filled, tagged away from the tested neighbour, has its tip on the axis of the neighbour's segment beyond the stub and its base straddling the axis; bullet circle literals map through merge_circle's thresholds (read from source, folded) to filled/open/big-open markers, each constructed marker variant has matching Display string, CSS rules, url(#id) and emitted <marker id> with the right fill class, marker-line class templates use the same prefixes and the marked end is the circle centre; every corner arc (33 today) has attached end points and its SVG centre on the inner side (axis-aligned corner for axis-parallel neighbours). T4: rounded outlines of every corner style are closed curves under cell-by-cell table evaluation (neighbourhood-complete family of 80 grids).",
         "design_ref": "DESIGN.md section 4 C14",
         "note": "Does not decide the run-time merge of polygon + line into marker lines nor arcs taken from the big-circle catalogue.",
         "technique": "table abstract evaluation (exact rational geometry, SVG arc semantics) + syntax-tree agreement rules (Display/CSS/marker ids) + MIR expression patterns",
     },
     "C19": {
-        "text": "Structural decision on the MIR of svgbob_cli: what is written (fs::write, `{}\\n` on stdout, batch files) is the unmodified result of to_svg_with_settings on the input text and the settings local the options were stored into; the input text has exactly the three sources (inline with \\n expanded, file, stdin); each value-taking option is consumed under its own name into the Settings field of that name; every non-zero exit is control-dependent on an error outcome and exit(0) on success; no Result of a workspace function is dropped (exit, `?`, or counted failure controlling an Err return); the library prints nothing on the conversion path except two reviewed diagnostics.",
+        "text": "Structural decision on the MIR of svgbob_cli: what is written (fs::write, `{}\\n` on stdout, batch files) is the unmodified result of to_svg_with_settings on the input text and the settings local the options were stored into; the input text has exactly the three sources (inline with \\n expanded, file, stdin); each value-taking option is consumed under its own name into the Settings field of that name; every non-zero exit is control-dependent on an error outcome and exit(0) on success; no Result of a workspace function is dropped (exit, `?`, or counted failure controlling an Err return); the library prints nothing on the conversion path except two reviewed diagnostics. X7 no failure exit can follow the creation of the output file; X8 a discarded option parse error needs a clap validator on every option that reaches it.",
         "design_ref": "DESIGN.md section 4 C19",
         "note": "Trusts clap and std::fs; partial output on I/O failure is not decided. Two genuine defects repaired by fix: commits b17f08e and 2fe06fa.",
         "technique": "MIR expression patterns, control dependence (exit discipline), reachability census (stdout), syntax-tree option table",
@@ -110,7 +110,7 @@ CLAIMS = {
         "technique": "MIR expression patterns + framework-call census + reachability census",
     },
     "C04": {
-        "text": "Structural decision of text placement plumbing: interprocedural taint of byte lengths (String::len/str::len) never meets a cell coordinate, Cell::new or the cell width; every path of the two per-cell loops adds a fragment for the cell (must-pass-through on the CFG) with cell_text(ch) as last alternative and the iteration's own cell; cells are inserted at the plain enumerate indices guarded only by `ch != NUL && !whitespace`; text is anchored at a grid point of its start cell with unchanged content, cell_text sits at the origin of its own cell, absolute positions add the cell, merging concatenates in column order; wide characters are followed by width-1 NUL fillers which the escaping table drops.",
+        "text": "Structural decision of text placement plumbing: interprocedural taint of byte lengths (String::len/str::len) never meets a cell coordinate, Cell::new or the cell width; every path of the two per-cell loops adds a fragment for the cell (must-pass-through on the CFG) with cell_text(ch) as last alternative and the iteration's own cell; cells are inserted at the plain enumerate indices guarded only by `ch != NUL && !whitespace`; text is anchored at a grid point of its start cell with unchanged content, cell_text sits at the origin of its own cell, absolute positions add the cell, merging concatenates in column order; wide characters are followed by width-1 NUL fillers which the escaping table drops. F4/F5: the column expansion of a character is conditional on nothing but the loops and width() being Some, and every column count uses the same width function.",
         "design_ref": "DESIGN.md section 4 C04",
         "note": "Which adjacent runs end up merged into one element depends on span grouping at run time and is not decided. Genuine defect repaired by fix: commit 73b59aa.",
         "technique": "MIR taint analysis (bytes vs columns) + must-pass-through on the CFG + expression patterns",
@@ -122,25 +122,25 @@ CLAIMS = {
         "technique": "MIR expression patterns (closures followed), field read census, forward-use analysis",
     },
     "C01": {
-        "text": "Structural decision of the panic/termination shape: census of every explicit panic site (panic!/unreachable!/assert!, unwrap/expect, Index::index, bounds/div asserts) reachable from the five entry points; each is discharged on the current source by a guard idiom (infeasible boolean skeleton by truth table, closed literal table, total parser, variant established by the selecting predicate, enumerate index of the same slice, infallible String writer, input-independent table initialiser, option paired with its flag, index below an established length of the same vector, find() offset) or is a reviewed assumption with its reason; every call-graph cycle has a shrinking-length or structural variant, no loop/while/unbounded iterator; the pom grammars cannot spin (no nullable operand under repeat/list).",
+        "text": "Structural decision of the panic/termination shape: census of every explicit panic site (panic!/unreachable!/assert!, unwrap/expect, Index::index, bounds/div asserts) reachable from the five entry points; each is discharged on the current source by a guard idiom (infeasible boolean skeleton by truth table, closed literal table, total parser, variant established by the selecting predicate, enumerate index of the same slice, infallible String writer, input-independent table initialiser, option paired with its flag, index below an established length of the same vector, find() offset) or is a reviewed assumption with its reason; every call-graph cycle has a shrinking-length or structural variant, no loop/while/unbounded iterator; the pom grammars cannot spin (no nullable operand under repeat/list). R5 NaN hygiene: values of the NaN-capable workspace functions (derived per run) never reach a function from which the total order util::ord (NaN arm panics) is reachable, nor a stored point.",
         "design_ref": "DESIGN.md section 4 C01",
         "note": "Not decided: stack depth, polynomial time, NaN-freedom, panics inside dependencies, OOM. A new panic site guarded by an idiom the checker does not know is reported (accepted limitation).",
         "technique": "MIR panic-site census with idiom discharge (control dependence, expression patterns, truth tables), Tarjan SCCs for recursion variants, grammar nullability analysis",
     },
     "C05": {
-        "text": "Attribute clause only: the rect emitted for an endorsed group spans min..max over both bound points of all fragments, is unfilled, dashed iff any fragment is dashed, rounded radius taken from an arc of the group; an endorsed group becomes FragmentSpan(group cells, rect); the rect element maps x,y,width,height,rx and the class flags from the fields.",
+        "text": "Attribute clause only: the rect emitted for an endorsed group spans min..max over both bound points of all fragments, is unfilled, dashed iff any fragment is dashed, rounded radius taken from an arc of the group; an endorsed group becomes FragmentSpan(group cells, rect); the rect element maps x,y,width,height,rx and the class flags from the fields. R1 acceptance implies corner coincidence; R2 the recognition region never compares whole lines/fragments or reads the dashed flag (style-blind recognition).",
         "design_ref": "DESIGN.md section 4 C05",
         "note": "NOT decided: recognition soundness/completeness (is_rect / is_rounded_rect on merged float geometry) — the core of C05, including the ladder case.",
         "technique": "MIR expression patterns with closure following",
     },
     "C06": {
-        "text": "Structural decision of translation plumbing: all four catalogue lookups compare the localised span and all four accepted fragments are re-offset by bounds().0; cell fragments are placed at their own cell; per fragment type every positional field of absolute_position is the same field translated by the cell and nothing else depends on the cell; enum/struct dispatch is complete; the cell translation primitives have the exact top-left +/- point shape (and fold correctly); Span::localize subtracts its own top-left.",
+        "text": "Structural decision of translation plumbing: all four catalogue lookups compare the localised span and all four accepted fragments are re-offset by bounds().0; cell fragments are placed at their own cell; per fragment type every positional field of absolute_position is the same field translated by the cell and nothing else depends on the cell; enum/struct dispatch is complete; the cell translation primitives have the exact top-left +/- point shape (and fold correctly); Span::localize subtracts its own top-left. P1 also: the left-over span of a catalogue match is taken from the un-localised search span in all four siblings; P4 census of float comparisons against non-zero constants (no new absolute tolerance).",
         "design_ref": "DESIGN.md section 4 C06",
         "note": "Float effects of the geometric predicates at large offsets are not decided.",
         "technique": "MIR expression patterns + constant folding + sibling-branch cross-check",
     },
     "C10": {
-        "text": "Structural decision of span isolation: spans are consumed only by span.endorse(); Span::endorse takes only the span and nothing reachable from it (tables excluded) receives a CellBuffer or Settings; spans are the merge_recursive fixpoint of one span per cell under |dx|<=1 && |dy|<=1 adjacency; the cross-span pass cannot write geometry (FragmentTree.fragment written only by new, enclose* write css_tag/enclosing only); per-span results are never merged across spans.",
+        "text": "Structural decision of span isolation: spans are consumed only by span.endorse(); Span::endorse takes only the span and nothing reachable from it (tables excluded) receives a CellBuffer or Settings; spans are the merge_recursive fixpoint of one span per cell under |dx|<=1 && |dy|<=1 adjacency; the cross-span pass cannot write geometry (FragmentTree.fragment written only by new, enclose* write css_tag/enclosing only); per-span results are never merged across spans. I2 demands the exact any-x-any is_adjacent shape of Span::can_merge (iterator or nested-loop form) with no additional deciding condition.",
         "design_ref": "DESIGN.md section 4 C10",
         "note": "Relies on C07 (immutable tables) and C12.M1 (canvas). Float equality effects inside one span are not decided.",
         "technique": "call-graph reachability with parameter-type census, field write census, MIR expression patterns, syntax pattern for the adjacency predicate",
